@@ -59,6 +59,50 @@ func jsonEventList(b []byte, trailing bool) ([]jev, string) {
 	}
 }
 
+// jsonEventsAfter: the events read from ONE document object after other calls were made on it (Len, Check, a partial
+// pass over the events followed by Len or Check, which rewind): what NextLexeme delivers describes the text, not the history.
+func jsonEventsAfter(b []byte, trailing bool, pre string) string {
+	return vh.Recover(func() string {
+		var d jlib.Document
+		if trailing {
+			d = jdoc.New("d", b, jdoc.AllowTrailingNonSpaceCharacters())
+		} else {
+			d = jdoc.New("d", b)
+		}
+		for _, c := range pre {
+			func() {
+				defer func() { _ = recover() }()
+				switch c {
+				case 'L':
+					_, _ = d.Len()
+				case 'C':
+					_ = d.Check()
+				case 'P':
+					for i := 0; i < 3; i++ {
+						if _, err := d.NextLexeme(); err != nil {
+							break
+						}
+					}
+				}
+			}()
+		}
+		var out []string
+		for {
+			lex, err := d.NextLexeme()
+			if err == io.EOF {
+				if lex.File() != nil {
+					out = append(out, fmt.Sprintf("%s[%d:%d]", lex.Type().String(), int(lex.Begin()), int(lex.End())))
+				}
+				return strings.Join(out, " ")
+			}
+			if err != nil {
+				return perr(err)
+			}
+			out = append(out, fmt.Sprintf("%s[%d:%d]", lex.Type().String(), int(lex.Begin()), int(lex.End())))
+		}
+	})
+}
+
 func jsonEvents(b []byte, trailing bool) string {
 	return vh.Recover(func() string {
 		evs, e := jsonEventList(b, trailing)
@@ -380,9 +424,11 @@ func init() {
 	// T-diff: JSON scanner model vs real NextLexeme / Check / Len on seeds, mutations, random strings and
 	// generated valid texts; plus the property-level checks of C06 on the valid texts.
 	register("json-diff", func(args []string) {
-		rep := vh.NewReport("json-diff", "seed documents, 1-3 byte-level mutations of them, random strings over a 36-byte alphabet, generated valid JSON texts (depth<=8,width<=8, all scalar forms, random layout); per input: events strict/trailing, Check strict/trailing, Len; nontrivial = input with at least one structural byte that is not a bare scalar")
+		rep := vh.NewReport("json-diff", "seed documents, 1-3 byte-level mutations of them, random strings over a 36-byte alphabet, generated valid JSON texts (depth<=8,width<=8, all scalar forms, random layout); per input: events strict/trailing, Check strict/trailing, Len; every 7th input also: events read from one document object after Len / Check / a partial pass (7 call histories) = events of a fresh object; nontrivial = input with at least one structural byte that is not a bare scalar")
 		r := vh.NewRand(11)
 		var reqs, impl, inputs []string
+		nEmit := 0
+		histPres := []string{"L", "C", "LC", "CL", "PL", "PC", "LL"}
 		emit := func(b []byte) {
 			h := vh.Hex(b)
 			cs, cd := jsonCheck(b, false), jsonCheck(b, true)
@@ -392,6 +438,19 @@ func init() {
 				inputs = append(inputs, fmt.Sprintf("%q", b))
 			}
 			rep.Case(string(b), strings.ContainsAny(string(b), "{}[],:\""))
+			// history on one object: events after Len / Check / a partial pass + Rewind are the events of a fresh object
+			nEmit++
+			if nEmit%7 == 0 {
+				pre := histPres[(nEmit/7)%len(histPres)]
+				for _, tr := range []bool{false, true} {
+					fresh, after := jsonEvents(b, tr), jsonEventsAfter(b, tr, pre)
+					rep.Stat("history_" + pre)
+					if fresh != after {
+						rep.AddDiff(vh.Diff{Component: "C06-history", Input: fmt.Sprintf("%q trailing=%v calls-before=%s (L=Len C=Check P=read 3 lexemes)", b, tr, pre),
+							Impl: "events after those calls: " + after, Model: "events of a fresh document: " + fresh})
+					}
+				}
+			}
 			if cs == "OK" {
 				rep.Stat("check_ok")
 			} else {
